@@ -170,7 +170,7 @@ def run_case(acc: Acc, engine, usages, targets, kinds, removed, activation=("Gen
 # Takagi-Sugeno / Tsukamoto / hybrid engines; x lock-previous / default settings x every way of giving the inputs
 # ---------------------------------------------------------------------------------------------------------------------
 FORWARD_LOCKS = [(False, float("nan")), (True, float("nan")), (False, 0.5), (True, 0.5)]
-FORWARD_MODES = ["float", "0d-array", "one-element-array", "input_values-row"]
+FORWARD_MODES = ["float", "0d-array", "one-element-array", "input_values-row", "float/fll-import"]  # last: the engine re-imported from its FLL text
 FORWARD_ROWS = [(0.25, 0.625), (0.0, 1.0), (1.5, 0.5)]
 FORWARD_PARTS = 8
 
@@ -180,6 +180,7 @@ def forward_recipes(tier: str):
     from ..ref.rulegrammar import prop as P
     from . import c01, c13
     out = [r for r, _ in c01.space_d(tier)] + [r for r, _ in c01.space_g("quick")] + [r for r in c13.engine_recipes() if len(r["inputs"]) == 2]
+    out += [r for k, (r, _) in enumerate(c01.space_h("quick")) if k % 5 == 0]  # operators installed through Engine.configure
     # a chained rule reading a term that no rule concludes, under every activation method
     for act in ACTIVATIONS:
         for kind in KINDS:
@@ -202,6 +203,12 @@ def run_forward(acc: Acc, recipe: dict, lock, mode: str) -> None:
     for o in r["outputs"]:
         o["lock_previous"], o["default"] = lp, default
     engine = R.build(r)
+    if mode.endswith("/fll-import"):  # activation methods, operators and defuzzifiers configured from text
+        try:
+            engine = fl.FllImporter().from_string(fl.FllExporter().to_string(engine))
+        except (ValueError, SyntaxError, KeyError):
+            acc.cls("forward_fll_not_importable")  # (a harness engine that uses an S-norm as implication; round trips are C14's subject)
+            return
     case = {"forward": True, "recipe": recipe, "lock": [lp, default], "mode": mode}
     errors: list[str] = []
     ready = engine.is_ready(errors)
@@ -216,7 +223,7 @@ def run_forward(acc: Acc, recipe: dict, lock, mode: str) -> None:
             engine.input_values = np.array([list(row)])
         else:
             for iv, x in zip(engine.input_variables, row):
-                iv.value = {"float": float(x), "0d-array": np.array(x), "one-element-array": np.array([x])}[mode]
+                iv.value = {"float": float(x), "0d-array": np.array(x), "one-element-array": np.array([x])}[mode.split("/")[0]]
         try:
             engine.process()
             acc.transitions += 1
@@ -236,7 +243,8 @@ def run_failed_loads(acc: Acc) -> None:
     from ..gen import recipes as R
     from ..ref.rulegrammar import prop as P
     bad_texts = ["if a is lo then o is lo and o is sideways", "if a is lo then o is lo and ghost is lo", "if a is lo then o is lo and o is",
-                 "if a is lo and b is then o is lo", "if a is lo then o is lo and o"]
+                 "if a is lo and b is then o is lo", "if a is lo then o is lo and o", "if a is then o is lo", "if a is very then o is lo",
+                 "if ( a is ) then o is lo"]
     for act in ACTIVATIONS:
         for bad in bad_texts:
             recipe = R.engine("failed-load", [R.in_var("a"), R.in_var("b")], [R.out_var("o")],
